@@ -137,8 +137,13 @@ Explains(r) ==
 \* the data-rebinning SSRB decides by comparing floating-point k with the bin edges, so an input TOF bin centred on
 \* an output edge goes to the side the comparison (and its rounding) happens to give, not to the bin the
 \* output geometry assigns; everything else about the line must still be explained (PermOk).
+\* C15-maxsegsmall: SSRB(ProjDataInfo...) does not refuse a max_in_segment_num_to_process smaller than
+\* num_segments_to_combine / 2 (its test "out_max_segment_num < 0" never fires: (m - n/2) / n truncates to 0 in C++)
+\* and combines segments the caller excluded.
 Classify(r) ==
-  IF r.e = "Rebin" /\ ~r.norm /\ c # NoCfg /\ o # NoCfg /\ p.tofComb % 2 = 0 /\ TofNests(c, o) /\ PermOk(r.nz) THEN "C15-eventof"
+  IF r.e = "Config" /\ ~r.err /\ InputOk(r) /\ TooFewSegments(CfgOf(r), ParOf(r)) /\ r.trim < r.maxTang - r.minTang + 1 /\ r.tofComb >= 1
+  THEN "C15-maxsegsmall"
+  ELSE IF r.e = "Rebin" /\ ~r.norm /\ c # NoCfg /\ o # NoCfg /\ p.tofComb % 2 = 0 /\ TofNests(c, o) /\ PermOk(r.nz) THEN "C15-eventof"
   ELSE "new"
 
 Init == l = 1 /\ c = NoCfg /\ p = [segComb |-> 0] /\ o = NoCfg /\ ipN = 0 /\ ipT = <<>> /\ evB = <<>> /\ fineTot = 0 /\ coarse = {} /\ bad = <<>>
